@@ -16,6 +16,11 @@ NA = {
 }
 
 CLAIMED = {
+ 'C14': dict(
+   technique='deterministic simulation: real SocketServer/Socket/Thread code over an in-process TCP/Unix network stub and simulated clock; raw clients (bursts, trickles, early closes) and stop(true)/destroy at seeded instants; flavour T preempts at every memory access with a heap-lifetime table (finds stop/destroy races), flavour A re-runs the plans at I/O granularity under AddressSanitizer; exactly-once, ordering and bounded-termination oracles over the recorded history',
+   text='Seeded search over histories (N clients, early closes, stop(true) at an arbitrary simulated instant, destruction) crossed with schedules in which the clock may advance while threads are descheduled. Found and fixed two use-after-free defects on the unchanged tree (handler thread deleting itself, destructor deleting the accept thread while it still runs). Evidence, not proof.',
+   ref='DESIGN.md 2.2-2.5, 5 (C14)',
+   note='Trusted: network stub fidelity (sim/net.cpp vs the real kernel), pthread/clock model, heap table; accept() failures are not injected.'),
  'C12': dict(
    technique='deterministic simulation: 2-3 real threads (plus the creator) serialised by a seeded scheduler that can preempt at every instrumented load, store and atomic of the handle code (custom __tsan_* runtime), random-walk / PCT / run-to-block strategies; exact heap-lifetime table (poisoned quarantine) as use-after-free / double-free / leak monitor; reference-count and conservation oracles; ddmin-shrunk replay files',
    text='Seeded search over interleavings of threads that copy, assign, drop (and clone, read) their own handles to one shared Array, Map, Dic, HashMap, HashDic, Shared<T>, SmartObject class or Socket, and of AtomicCount / Atomic<int|double|Array<int>> read-modify-write operators. Non-atomic read-modify-writes are reachable schedules because preemption is per memory access. Evidence, not proof; the 16-thread 10^7-operation race-detector clause of the quantifier is replaced by access-granular controlled preemption on small operation counts.',
